@@ -20,7 +20,7 @@ CHECKS = {
   technique="Lean 4 proof (invariant + induction over commands) on a hand-written engine model + differential correspondence"),
  "C03": dict(
   category="proof",
-  text="Lean 4 theorems over the same parametric engine model: rollback_replay (any interleaving of exec/rollback leaves exactly the history of a fresh engine that ran the surviving commands, and the canonical engine state), chain_ok, hashes_distinct, hash_locates/hash_index_sound for get_hash_index (with an injective never-empty hash combiner). Validated on the real engine exhaustively for all exec/rollback programs up to a depth over a 4-command alphabet and on random programs for all jobs, against a fresh reference engine after every step, with independent sha1 recomputation.",
+  text="(Part file C03_Refused: rollback_replay_with_refusals — the same with commands that are refused with an exception anywhere in between.) Lean 4 theorems over the same parametric engine model: rollback_replay (any interleaving of exec/rollback leaves exactly the history of a fresh engine that ran the surviving commands, and the canonical engine state), chain_ok, hashes_distinct, hash_locates/hash_index_sound for get_hash_index (with an injective never-empty hash combiner). Validated on the real engine exhaustively for all exec/rollback programs up to a depth over a 4-command alphabet and on random programs for all jobs, against a fresh reference engine after every step, with independent sha1 recomputation.",
   design_ref="DESIGN.md §4 C03",
   note="Trusted: Lean kernel + standard axioms; hand model tied by recorded-table replay; StoreLaws; sha1 collision freedom.",
   technique="Lean 4 proof (induction over op sequences, hash-chain invariant) + differential correspondence"),
